@@ -83,6 +83,13 @@ impl<'a> Model<'a> {
         for worksheet in worksheets {
             index = index.max(worksheet.sheet_id);
         }
+        // The id of a deleted sheet that still owns defined names is not handed out again:
+        // a new sheet must not adopt them.
+        for defined_name in &self.workbook.defined_names {
+            if let Some(sheet_id) = defined_name.sheet_id {
+                index = index.max(sheet_id);
+            }
+        }
         index + 1
     }
 
